@@ -371,17 +371,19 @@ func runCase(t *testing.T, transport string, ops [][]string) []string {
 		}
 		if transport == "udp" {
 			w.udp, w.us = mem.NewUDPConn(mem.UDPOpts{Blockwise: w.bw, Mutate: func(cfg *udpclient.Config) {
-				cfg.LimitClientParallelRequests = 8
-				cfg.LimitClientEndpointParallelRequests = 8
-				cfg.TransmissionNStart = 64 // confirmable registrations must not queue behind one another (NSTART is C06's subject)
+				// many registration calls may be waiting for their first answer at the same time (burst histories): the limiter of
+				// parallel requests is C16's subject and must not queue them outside the observation table
+				cfg.LimitClientParallelRequests = 4096
+				cfg.LimitClientEndpointParallelRequests = 4096
+				cfg.TransmissionNStart = 512 // confirmable registrations must not queue behind one another (NSTART is C06's subject)
 				cfg.Handler = func(_ *responsewriter.ResponseWriter[*udpclient.Conn], m *pool.Message) { deflt(m.Token(), m) }
 			}})
 			w.cc = w.udp
 		} else {
 			var err error
 			w.tcp, w.tp, err = mem.NewTCPConn(mem.TCPOpts{Mutate: func(cfg *tcpclient.Config) {
-				cfg.LimitClientParallelRequests = 8
-				cfg.LimitClientEndpointParallelRequests = 8
+				cfg.LimitClientParallelRequests = 4096
+				cfg.LimitClientEndpointParallelRequests = 4096
 				cfg.BlockwiseEnable = w.bw
 				cfg.Handler = func(_ *responsewriter.ResponseWriter[*tcpclient.Conn], m *pool.Message) { deflt(m.Token(), m) }
 			}})
